@@ -66,6 +66,10 @@ func runAgent(msgs []string) {
 	srv, cli := tcpPair()
 	sessDone := make(chan struct{})
 	go func() { defer close(sessDone); agent.VerifServe(l, srv) }()
+	// datagram services answer at once in some sessions and late (after the whole message sequence) in the others
+	// (decided by the case line alone so that a replay runs the same way: sessions with an even number of messages)
+	lateUDP := len(msgs)%2 == 0
+	release := make(chan struct{})
 	// the services' side: accept every surfaced connection, read it to its end; answer the first bytes once
 	var mu sync.Mutex
 	var conns []*surfaced
@@ -94,6 +98,16 @@ func runAgent(msgs []string) {
 						// the service's reply: a stream chosen by the first byte it received, written in the chunk
 						// sizes of replyPlan (one Write each)
 						replied = true
+						if s.isUDP && lateUDP {
+							// a datagram service that answers late: after every message of the session has arrived
+							s.mu.Lock()
+							s.ended = true
+							s.mu.Unlock()
+							select {
+							case <-release:
+							case <-time.After(3 * time.Second):
+							}
+						}
 						stream := replyStream(buf[0], s.isUDP)
 						for _, k := range replyPlan(buf[0], s.isUDP) {
 							c.Write(stream[:k])
@@ -214,6 +228,10 @@ func runAgent(msgs []string) {
 		}
 		return true
 	}
+	for dl := time.Now().Add(3 * time.Second); !settled() && time.Now().Before(dl); {
+		time.Sleep(2 * time.Millisecond)
+	}
+	close(release)
 	repliesIn := func() bool {
 		bmu.Lock()
 		defer bmu.Unlock()
@@ -465,6 +483,15 @@ func genC16(tier string, seed uint64) {
 	runAgent([]string{"d:" + a(pairs[0]) + ":" + pay(3), "h:" + a(pairs[0]), "d:" + a(pairs[1]) + ":" + pay(3), "e:" + a(pairs[1]), "d:" + a(pairs[0]) + ":" + pay(2), "e:" + a(pairs[0]), "d:" + a(pairs[0]) + ":" + pay(2), "e:" + a(pairs[0])})
 	runAgent([]string{"h:" + a(pairs[0]), "h:" + a(pairs[0]), "d:" + a(pairs[0]) + ":" + pay(4), "e:" + a(pairs[0]), "d:" + a(pairs[0]) + ":" + pay(5), "e:" + a(pairs[0])})
 	runAgent([]string{"p", "u:" + a(pairs[0]) + ":" + pay(10), "p", "h:" + a(pairs[0]), "u:" + a(pairs[0]) + ":" + pay(1), "d:" + a(pairs[0]) + ":" + pay(3), "e:" + a(pairs[0])})
+	// datagrams for different address pairs in one session (each reply must come back tagged with its own pair,
+	// also when the service answers after later datagrams have arrived): run twice (prompt and late answers)
+	for rep := 0; rep < 2; rep++ {
+		tail := []string{"p"}[:rep] // one more message flips the session between prompt and late answers
+		runAgent(append([]string{"u:" + a(pairs[0]) + ":" + pay(5), "u:" + a(pairs[1]) + ":" + pay(6)}, tail...))
+		runAgent(append([]string{"u:" + a(pairs[0]) + ":" + pay(5), "u:" + a(pairs[3]) + ":" + pay(6), "u:" + a(pairs[6]) + ":" + pay(7)}, tail...))
+		runAgent(append([]string{"h:" + a(pairs[0]), "u:" + a(pairs[2]) + ":" + pay(5), "d:" + a(pairs[0]) + ":" + pay(4), "u:" + a(pairs[4]) + ":" + pay(300), "e:" + a(pairs[0])}, tail...))
+		runAgent(append([]string{"u:" + a(pairs[7]) + ":" + pay(1), "u:" + a(pairs[0]) + ":" + pay(1), "u:" + a(pairs[7]) + ":" + pay(2)}, tail...))
+	}
 	// bursts of small data messages on a connection that stays open: every byte must reach the service without a
 	// further message (the reader is signalled per message; a signal lost between its check and its wait would hold
 	// the bytes back)
@@ -558,6 +585,9 @@ func genC16(tier string, seed uint64) {
 			seqs[j] = seqs[j][1:]
 			if r.Intn(15) == 0 {
 				ms = append(ms, "p")
+			}
+			if r.Intn(12) == 0 {
+				ms = append(ms, "u:"+a(pairs[r.Intn(len(pairs))])+":"+pay(1+r.Intn(40)))
 			}
 		}
 		runAgent(ms)
